@@ -142,6 +142,16 @@ pub struct Sim {
     pub c13_nontrivial: u64,
     pub c08_nontrivial: u64,
     pub c09_toggled_alias: bool,
+    pub train: crate::train::TrainStats,
+    pub model_output_iter: Option<u64>,
+    /// 0 no training span, 1 layers alive, 2 model open (idle), 3 after forward, 4 after backward
+    pub train_phase: u8,
+    pub train_out_dims: Option<Vec<usize>>,
+    pub train_first_layer: Option<LayerSpec>,
+    pub train_param_count: usize,
+    /// nodes that are live model parameters seen through an observer's handle: other actors are
+    /// read-only with respect to their gradient cell (no pass from them, no clear, no tracking)
+    pub protected: BTreeSet<usize>,
 }
 
 pub const EXACT_BOUND_F64: f64 = 1125899906842624.0; // 2^50
@@ -198,6 +208,13 @@ impl Sim {
             c13_nontrivial: 0,
             c08_nontrivial: 0,
             c09_toggled_alias: false,
+            train: Default::default(),
+            model_output_iter: None,
+            train_phase: 0,
+            train_out_dims: None,
+            train_first_layer: None,
+            train_param_count: 0,
+            protected: BTreeSet::new(),
         }
     }
 
@@ -239,7 +256,7 @@ impl Sim {
     }
 
     /// Puts a handle into a slot (dropping whatever the slot held).
-    fn put(&mut self, s: Slot, arr: Array, hi: HInfo) {
+    pub(crate) fn put(&mut self, s: Slot, arr: Array, hi: HInfo) {
         self.ensure_slot(s);
         let node = hi.node;
         if !self.snaps.contains_key(&node) {
@@ -266,7 +283,7 @@ impl Sim {
         v
     }
 
-    fn new_leaf_node(&mut self, dims: &[usize], vals: &[f64], origin: &'static str) -> usize {
+    pub(crate) fn new_leaf_node(&mut self, dims: &[usize], vals: &[f64], origin: &'static str) -> usize {
         let alias = self.g.fresh_alias();
         self.g.add(Node { op: None, edges: vec![], has_graph: false, dims: dims.to_vec(), vals: vals.to_vec(), alias, origin })
     }
@@ -483,7 +500,22 @@ impl Sim {
         }
     }
 
+    fn is_protected(&self, s: Slot) -> bool {
+        self.node_of(s).map(|n| self.protected.contains(&n)).unwrap_or(false)
+    }
+
     fn step_inner(&mut self, ev: &Ev) -> StepOut {
+        let guarded = match ev {
+            Ev::Pass { root, .. } => self.is_protected(*root),
+            Ev::GradClear { slot, .. } => self.is_protected(*slot),
+            Ev::Update { slots, .. } => slots.iter().any(|s| self.is_protected(*s)),
+            Ev::Flag { slot, f } => matches!(f, FlagOp::Start | FlagOp::Tracked) && self.is_protected(*slot),
+            Ev::FlagClone { src, f, .. } => matches!(f, FlagOp::Start | FlagOp::Tracked) && self.is_protected(*src),
+            _ => false,
+        };
+        if guarded {
+            return StepOut::Skipped("observers are read-only with respect to live model parameters");
+        }
         match ev {
             Ev::Leaf { dst, dims, vals, mode } => {
                 if dims.is_empty() || dims.iter().any(|d| *d == 0) || numel(dims) != vals.len() || !vals.iter().all(|v| v.is_finite()) {
